@@ -213,6 +213,40 @@ func (fc *FnCtx) addFactQ(guard, term string, qs []QInst) {
 	if term == "true" || term == guard {
 		return
 	}
+	// a conjunction is recorded conjunct by conjunct: the generator instantiates a quantified hypothesis by
+	// repeating the fact it occurs in, and a fact that is the conjunction of all invariants of a loop makes every
+	// instance carry all of them
+	if len(qs) > 0 && strings.HasPrefix(term, "(and ") {
+		if parts := splitSexpr(term); len(parts) > 2 && parts[0] == "and" {
+			for _, c := range parts[1:] {
+				var cq []QInst
+				for _, q := range qs {
+					if strings.Contains(c, q.Forall) {
+						cq = append(cq, q)
+					}
+				}
+				fc.addFactQ(guard, c, cq)
+			}
+			return
+		}
+	}
+	// (=> A (and B C)) is recorded as (=> A B) and (=> A C) for the same reason
+	if len(qs) > 0 && strings.HasPrefix(term, "(=> ") {
+		if parts := splitSexpr(term); len(parts) == 3 && strings.HasPrefix(parts[2], "(and ") {
+			if cs := splitSexpr(parts[2]); len(cs) > 2 && cs[0] == "and" {
+				for _, c := range cs[1:] {
+					var cq []QInst
+					for _, q := range qs {
+						if strings.Contains(c, q.Forall) {
+							cq = append(cq, q)
+						}
+					}
+					fc.addFactQ(guard, sImp(parts[1], c), cq)
+				}
+				return
+			}
+		}
+	}
 	fc.facts = append(fc.facts, Fact{Guard: guard, Term: term, Quants: qs})
 }
 
